@@ -533,3 +533,261 @@ pub fn c22(m: &mut Mon, w: &mut World, idx: usize) {
         }
     }
 }
+
+// ---------------- C14 ----------------
+/// peer a trace state is attributed to (by stored tetraplet), and a printable form of the state
+fn attribution(d: &InterpreterData, st: &ExecutedState) -> Option<String> {
+    match st {
+        ExecutedState::Call(CallResult::Executed(ValueRef::Scalar(c)))
+        | ExecutedState::Call(CallResult::Executed(ValueRef::Stream { cid: c, .. }))
+        | ExecutedState::Call(CallResult::Failed(c)) => {
+            let a = d.cid_info.service_result_store.get(c)?;
+            Some(d.cid_info.tetraplet_store.get(&a.tetraplet_cid)?.peer_pk.clone())
+        }
+        ExecutedState::Canon(CanonResult::Executed(c)) => {
+            let a = d.cid_info.canon_result_store.get(c)?;
+            Some(d.cid_info.tetraplet_store.get(&a.tetraplet)?.peer_pk.clone())
+        }
+        _ => None,
+    }
+}
+fn state_cid_str(st: &ExecutedState) -> Option<String> {
+    match st {
+        ExecutedState::Call(CallResult::Executed(ValueRef::Scalar(c)))
+        | ExecutedState::Call(CallResult::Executed(ValueRef::Stream { cid: c, .. }))
+        | ExecutedState::Call(CallResult::Failed(c)) => Some(c.get_inner().to_string()),
+        ExecutedState::Canon(CanonResult::Executed(c)) => Some(c.get_inner().to_string()),
+        _ => None,
+    }
+}
+pub fn c14(m: &mut Mon, w: &mut World, idx: usize) {
+    let Some(byz) = w.sc.byz else { return };
+    let byz_id = w.ids[byz].clone();
+    let peer = w.runs[idx].peer;
+    // ground truth: what every honest peer itself produced (ids attributed to itself in its own outputs)
+    if new_data_class(w.runs[idx].out.code) && w.runs[idx].stored {
+        let d = m.decoded(w, idx);
+        let me = w.ids[peer].clone();
+        for st in d.trace.iter() {
+            if attribution(&d, st).as_deref() == Some(me.as_str()) {
+                if let Some(c) = state_cid_str(st) {
+                    m.produced.entry(me.clone()).or_default().insert(c);
+                }
+            }
+        }
+    }
+    if peer == byz {
+        return;
+    }
+    let r = &w.runs[idx];
+    let code = r.out.code;
+    let rejected = matches!(class(code), 'P' | 'U') && r.out.data == **r.prev;
+    if r.cur_forged {
+        let kinds = r.forge_kinds.join("+");
+        if let Some(tag) = r.must_reject.clone() {
+            if !rejected {
+                let d = format!(
+                    "peer {peer} eid {}: data tampered by {byz} with [{kinds}] (alters what is attributed to another peer / another particle) was not rejected: code {code} {}",
+                    r.eid,
+                    r.out.msg.chars().take(200).collect::<String>()
+                );
+                m.report(w, Some(idx), "C14", &format!("accepted-{tag}"), d);
+                return;
+            }
+            m.nontrivial.insert(hash64(&format!("rej{kinds}{code}")));
+        } else if !rejected && new_data_class(code) {
+            // execution-level ops: compare with the twin run on the untampered message, position by position
+            if let Some(orig) = r.forged_from.clone() {
+                let (prev, results) = (r.prev.clone(), r.results.clone());
+                let lim = w.limits_of(peer);
+                let twin = w.shadow_ex(peer, &prev, &orig, &results, Some(&lim), None, None);
+                if new_data_class(twin.code) {
+                    let dt = interp::dec(&twin.data);
+                    let df = m.decoded(w, idx);
+                    if dt.trace.len() == df.trace.len() {
+                        for (p, (st, sf)) in dt.trace.iter().zip(df.trace.iter()).enumerate() {
+                            let at = attribution(&dt, st);
+                            let af = attribution(&df, sf);
+                            let honest_t = at.as_ref().map(|q| *q != byz_id).unwrap_or(false);
+                            let honest_f = af.as_ref().map(|q| *q != byz_id).unwrap_or(false);
+                            if (honest_t || honest_f) && format!("{st}") != format!("{sf}") {
+                                let d = format!(
+                                    "peer {peer} eid {}: tampering [{kinds}] by {byz} was accepted: position {p} holds `{sf}` (attributed to {af:?}) where the untampered message gives `{st}` (attributed to {at:?})",
+                                    w.runs[idx].eid
+                                );
+                                m.report(w, Some(idx), "C14", "accepted-altered-result", d);
+                                return;
+                            }
+                        }
+                        m.nontrivial.insert(hash64(&format!("twin{kinds}{}", df.trace.len())));
+                    }
+                }
+            }
+        } else if rejected {
+            m.nontrivial.insert(hash64(&format!("rejx{kinds}{code}")));
+        }
+    }
+    // backstop: nothing attributed to an honest peer that the peer did not produce itself
+    if new_data_class(code) && w.runs[idx].stored {
+        let d = m.decoded(w, idx);
+        for (p, st) in d.trace.iter().enumerate() {
+            if let (Some(q), Some(c)) = (attribution(&d, st), state_cid_str(st)) {
+                if q != byz_id && q != w.ids[peer] {
+                    let known = m.produced.get(&q).map(|s| s.contains(&c)).unwrap_or(false);
+                    if !known {
+                        let dd = format!("peer {peer} eid {}: data holds at {p} a result {c} attributed to {q}, which {q} never produced", w.runs[idx].eid);
+                        m.report(w, Some(idx), "C14", "foreign-content-id", dd);
+                        return;
+                    }
+                }
+            }
+        }
+    }
+}
+
+// ---------------- C15 ----------------
+fn per_peer_multisets(d: &InterpreterData) -> BTreeMap<String, BTreeMap<String, usize>> {
+    let mut m: BTreeMap<String, BTreeMap<String, usize>> = BTreeMap::new();
+    for st in d.trace.iter() {
+        if let (Some(q), Some(c)) = (attribution(d, st), state_cid_str(st)) {
+            *m.entry(q).or_default().entry(c).or_default() += 1;
+        }
+    }
+    m
+}
+fn multisubset(small: &BTreeMap<String, usize>, large: &BTreeMap<String, usize>) -> bool {
+    small.iter().all(|(k, n)| large.get(k).cloned().unwrap_or(0) >= *n)
+}
+fn sig_map(w: &World, d: &InterpreterData) -> BTreeMap<String, String> {
+    let mut out = BTreeMap::new();
+    let j = serde_json::to_value(&d.signatures).unwrap_or_default();
+    if let Some(o) = j.as_object() {
+        for (pk, sig) in o {
+            for (i, id) in w.ids.iter().enumerate() {
+                if crate::tamper::public_key_string(w, i) == *pk {
+                    out.insert(id.clone(), sig.as_str().unwrap_or("").to_string());
+                }
+            }
+        }
+    }
+    out
+}
+pub fn c15(m: &mut Mon, w: &mut World, idx: usize) {
+    let r = &w.runs[idx];
+    if r.cur.is_empty() || r.prev.is_empty() || r.cur_forged {
+        return;
+    }
+    let (Ok(a), Ok(b)) = (interp::decode(&r.prev), interp::decode(&r.cur)) else { return };
+    let ma = per_peer_multisets(&a.data);
+    let mb = per_peer_multisets(&b.data);
+    let mut incomparable: Option<String> = None;
+    for (p, sa) in &ma {
+        if let Some(sb) = mb.get(p) {
+            if !multisubset(sa, sb) && !multisubset(sb, sa) {
+                incomparable = Some(p.clone());
+            }
+        }
+    }
+    let code = r.out.code;
+    let eid = r.eid;
+    let peer = r.peer;
+    if let Some(p) = incomparable {
+        let rejected = class(code) == 'P' && r.out.data == **r.prev;
+        if !rejected {
+            let d = format!("peer {peer} eid {eid}: previous and current data carry incomparable result sets for {p} (equivocation) but the run was not rejected in preparation: code {code} {}", r.out.msg.chars().take(200).collect::<String>());
+            m.report(w, Some(idx), "C15", "equivocation-accepted", d);
+        } else {
+            m.nontrivial.insert(hash64(&format!("equiv{p}{}", ma[&p].len())));
+            m.count("c15_equivocations_rejected");
+        }
+        return;
+    }
+    if !new_data_class(code) {
+        return;
+    }
+    let Ok(c) = interp::decode(&r.out.data) else { return };
+    let sa = sig_map(w, &a.data);
+    let sb = sig_map(w, &b.data);
+    let sc = sig_map(w, &c.data);
+    let mc = per_peer_multisets(&c.data);
+    let me = w.ids[peer].clone();
+    let mut checked = 0;
+    for p in ma.keys().chain(mb.keys()).collect::<BTreeSet<_>>() {
+        if *p == me {
+            continue;
+        }
+        let na: usize = ma.get(p).map(|x| x.values().sum()).unwrap_or(0);
+        let nb: usize = mb.get(p).map(|x| x.values().sum()).unwrap_or(0);
+        let expect = if na > nb { sa.get(p) } else if nb > na { sb.get(p) } else { sa.get(p).or(sb.get(p)) };
+        let got = sc.get(p);
+        let ok = if na == nb { got.is_some() && (got == sa.get(p) || got == sb.get(p)) } else { got == expect };
+        if !ok {
+            let d = format!("peer {peer} eid {eid}: merged data keeps for {p} a signature that is not the one that came with its larger result set (|prev|={na}, |cur|={nb})");
+            m.report(w, Some(idx), "C15", "wrong-signature-kept", d);
+            return;
+        }
+        // the kept signature verifies over the merged data's multiset for that peer
+        if let Some(cids) = mc.get(p) {
+            let mut v: Vec<std::rc::Rc<str>> = vec![];
+            for (c, n) in cids {
+                for _ in 0..*n {
+                    v.push(std::rc::Rc::from(c.as_str()));
+                }
+            }
+            v.sort_unstable();
+            let mut verified = false;
+            for (pk, sig) in c.data.signatures.iter() {
+                if pk.to_peer_id().map(|x| x.to_string()).ok().as_deref() == Some(p.as_str()) {
+                    verified = pk.verify(&v, &w.runs[idx].particle, sig).is_ok();
+                }
+            }
+            if !verified && !w.runs[idx].taint.contains("F1") {
+                let d = format!("peer {peer} eid {eid}: the signature kept for {p} does not verify over the merged data's result multiset for {p} ({} results)", v.len());
+                m.report(w, Some(idx), "C15", "kept-signature-does-not-verify", d);
+                return;
+            }
+        }
+        checked += 1;
+        if na != nb && na > 0 && nb > 0 {
+            m.nontrivial.insert(hash64(&format!("nested{p}{na}{nb}")));
+        }
+    }
+    let _ = checked;
+}
+
+// ---------------- C01: the other public entry points on everything that crosses the wire ----------------
+pub fn c01_entry_points(m: &mut Mon, w: &mut World, idx: usize) {
+    let (cur, script, first) = {
+        let r = &w.runs[idx];
+        (r.cur.clone(), r.script.clone(), idx == 0 || r.script != w.script)
+    };
+    if !cur.is_empty() {
+        let c2 = cur.clone();
+        let mark = interp::heap_mark();
+        let res = std::panic::catch_unwind(move || {
+            let _ = air::to_human_readable_data(c2.to_vec());
+        });
+        let peak = interp::heap_peak_since(mark);
+        if res.is_err() {
+            let p = interp::last_panic();
+            let loc = p.split(": ").next().unwrap_or("").to_string();
+            m.report(w, Some(idx), "C01", &format!("panic@{loc}"), format!("to_human_readable_data panicked on a {} byte blob: {p}", cur.len()));
+            return;
+        }
+        if peak > 64 * cur.len() + (16 << 20) {
+            m.report(w, Some(idx), "C01", "heap", format!("to_human_readable_data needed {peak} bytes for a {} byte blob", cur.len()));
+            return;
+        }
+    }
+    if first {
+        let s2 = script.clone();
+        let res = std::panic::catch_unwind(move || {
+            let _ = air::parser::parse(&s2);
+            let mut out = Vec::new();
+            let _ = air_beautifier::beautify(&s2, &mut out, false);
+        });
+        if res.is_err() {
+            m.report(w, Some(idx), "C01", "panic@parse-or-beautify", format!("parse/beautify panicked on script: {}", script.chars().take(300).collect::<String>()));
+        }
+    }
+}
